@@ -89,6 +89,17 @@ add("C20", "exploration",
     "deterministic simulation of concurrent actors with a seeded scheduler over shared-cache events, vs run-alone golden outputs",
     qt=900, tt=2400)
 
+add("C12", "exploration",
+    "Three seeded explorations: (H) histories of <= 6 cache operations (runs with gtf/gz/db x --complete_genedb x --clean_start "
+    "into three output folders, edit_gtf, touch_gtf, delete_db, wipe_cache) executed by real IsoQuant invocations under one HOME "
+    "with logical mtimes - after every run the database actually used must be a fresh conversion of the current annotation with "
+    "the current flags; (R) one workload as .gtf/.gtf.gz/.db x --complete_genedb under varying threads/schedules: outputs "
+    "byte-identical; (P) the same reads dealt into 1..4 BAM files in permuted order: assignments, BED and ungrouped tables equal "
+    "as multisets.",
+    "Trusted: logical mtimes (content change => mtime change), harness-side fresh conversions with real gffutils; all "
+    "representations of one workload run under one hash seed (hash-seed effects belong to C06).",
+    "deterministic simulation of cache histories (sequential actors, logical clock) + golden equality across representations/partitions")
+
 PENDING = {p: "simulation target (DESIGN.md sections 3-4) whose check is not registered in this revision yet"
            for p in ["C02", "C03", "C05", "C07", "C08", "C09", "C10", "C12", "C15", "C17", "C18", "C20"]}
 
